@@ -129,7 +129,7 @@ def run_e2(unit) -> UnitResult:
             return make_rep(rep_kind, ctx.g, src, d, gene_length=L)
 
         ss = StateSpace(mk, max_states=unit["max_states"], max_execs_per_op=unit["max_execs_per_op"], max_partners=4,
-                        horizon=400, source_kwargs=skw)
+                        horizon=400, source_kwargs=skw, post=P.dsge_populate if rep_kind == "dsge" else None)
         pre: dict = {}
 
         def snap(o):
